@@ -71,6 +71,9 @@ def check(P, R):
         else:
             size, strict = None, False
         okb = strict and bool(guard) and parts.index(guard[0]) < parts.index(c) if guard and size is not None else False
+        if not okb and strict and size is not None:
+            # the None guard may sit in an enclosing `if` (possibly through a flag computed before the loop)
+            okb = T.holds_not_none(T.guard_atoms(f, n), 'max_body_size')
         R.ob('C13.b', f, c, okb, detail='' if okb else
              ('the comparison is not strict: a body of exactly max_body_size is refused' if not strict else
               'the comparison is not guarded by `max_body_size is not None`'),
@@ -187,8 +190,7 @@ def check(P, R):
         cn = fb_.cfg.node_of_stmt(c)[0]
         cl = fb_.rd.closure_nodes(a1, cn) if a1 is not None else []
         calls_ = [x for x in cl if isinstance(x, ast.Call)]
-        ok = a1 is not None and any(isinstance(x, ast.Attribute) and dotted(x) == 'self.config.max_memfile_size' for x in cl) and not calls_ \
-            and not any(isinstance(x, (ast.BinOp, ast.IfExp)) for x in cl)
+        ok = a1 is not None and T.xsrc(fb_, a1, cn) == 'self.config.max_memfile_size'
         R.ob('C13.c', fb_, c, ok, text=f'buffer / spill threshold argument = self.config.max_memfile_size', detail='' if ok else
              f'the threshold handed to the reader is `{short(a1)}`' + (f' = {short(calls_[0])}' if calls_ else '') +
              ', not the configured max_memfile_size itself: bodies between the configured threshold and the substituted value stay in memory',
